@@ -48,6 +48,8 @@ def concretize(model, v):
         return type(v)(concretize(model, x) for x in v)
     if isinstance(v, dict):
         return {concretize(model, k): concretize(model, x) for k, x in v.items()}
+    if type(v).__name__ == 'SymKey':
+        return concretize(model, v.v)
     return v
 
 
@@ -147,7 +149,7 @@ def session_state_request(S, model):
           'peer_id': ev(S.peer_id0), 'bgp_id': ev(S.pre['peering.bgp_id']),
           'conf': {'cfgH': ev(S.cfgH), 'cr_t': ev(S.cr_t), 'ih_t': ev(S.ih_t), 'do_t': ev(S.do_t), 'cfgKA': ev(S.cfgKA),
                    'local_as': ev(S.local_as), 'remote_as': ev(S.remote_as), 'now': float(ev(SNum(S.now))),
-                   'rib': ev(S.rib)},
+                   'rib': ev(S.rib), 'caps': jval(ev(S.caps0))},
           'n_pending': ev(S.n_pending0), 'timers': {}}
     for sh, t in S.timers_pre.items():
         st['timers'][sh] = {'status': ev(t['status']), 'active': ev(t['_active']), 'deadline': float(ev(t['_deadline']))}
